@@ -78,7 +78,9 @@ def py_spec_step(op, ns):
     k = op[0]
     if k == "select":
         return [a[2] if a[0] == "alias" else attr(a[1]) for a in op[1]]
-    if k == "withColumn":
+    if k == "joinOn":
+        return ns + list(op[1])
+    if k in ("withColumn", "withColumnItem"):
         if any(key(x) == key(op[1]) for x in ns):
             return [op[1] if key(x) == key(op[1]) else x for x in ns]
         return ns + [op[1]]
@@ -121,12 +123,21 @@ class Gen:
             return "`" + v + "`"
         return v
 
+    def itemref(self, n):
+        """a reference through the DataFrame object: df[...] (bare or back-ticked) or df.<name>"""
+        v = self.ref(n)
+        if not v.startswith("`") and v.isidentifier() and self.r.random() < 0.4:
+            return ("attr", v)
+        return ("item", v)
+
     def selarg(self, n, ns):
         r = self.r.random()
-        if r < 0.35:
+        if r < 0.25:
             return ("str", self.ref(n))
-        if r < 0.75:
+        if r < 0.50:
             return ("col", self.ref(n))
+        if r < 0.75:
+            return self.itemref(n)
         new = self.fresh(ns, 1)
         a = new[0] if new and self.r.random() < 0.7 else variant(self.r, n)
         return ("alias", self.ref(n), a)
@@ -143,6 +154,8 @@ class Gen:
         if k < 0.34:
             tgt = r.choice(ns) if r.random() < 0.4 else (self.fresh(ns, 1) or [r.choice(ns)])[0]
             tgt = variant(r, tgt)
+            if r.random() < 0.4:
+                return ("withColumnItem", tgt, self.ref(r.choice(ns)))
             return ("withColumn", tgt, self.ref(r.choice(ns)))
         if k < 0.44:
             new = (self.fresh(ns, 1) or ["Zq"])[0]
@@ -162,9 +175,13 @@ class Gen:
             keys = r.sample(ns, r.randint(0, min(2, len(ns))))
             rest = [x for x in ns if x not in keys]
             al = self.fresh(keys, r.randint(1, 2))
-            return ("groupAgg", [(r.choice(["str", "col"]), self.ref(x)) for x in keys], al)
+            return ("groupAgg", [(r.choice(["str", "col", "item"]), self.ref(x)) for x in keys], al)
         if k < 0.69:
             return ("agg", self.fresh([], r.randint(1, 2)))
+        if k < 0.72:
+            others = self.fresh(ns, r.randint(1, 3))
+            if others:
+                return ("joinOn", others, self.ref(r.choice(ns)), self.ref(others[0]))
         if k < 0.77:
             kk = r.sample(ns, r.randint(1, min(2, len(ns))))
             others = self.fresh(ns, r.randint(1, 2))
@@ -179,11 +196,16 @@ class Gen:
         if k < 0.88:
             return ("dropDuplicates", [self.ref(x, ticks_allowed=False) for x in r.sample(ns, r.randint(1, min(2, len(ns))))])
         if k < 0.92:
-            return ("where", self.ref(r.choice(ns)))
+            return (r.choice(["where", "whereItem"]), self.ref(r.choice(ns)))
         if k < 0.96:
             cand = ns
             if prev == "join":   # qualified keyword columns (t.select) hit further parser quirks: not generated
                 cand = [x for x in ns if key(x) not in KW_ORDERBY] or None
+            if cand and r.random() < 0.4:
+                # table-qualified keyword keys (t.select) hit further parser quirks of sqlglot: not generated
+                cand2 = [x for x in cand if key(x) not in KW_ORDERBY]
+                if cand2:
+                    return ("orderByItems", [self.ref(x) for x in r.sample(cand2, r.randint(1, min(2, len(cand2))))])
             if cand:
                 return ("orderBy", [self.ref(x) for x in r.sample(cand, r.randint(1, min(2, len(cand))))])
         if k < 0.98:
@@ -211,20 +233,33 @@ def make_df(session, names):
     return session.createDataFrame([tuple(1 for _ in names)], list(names))
 
 
+def _arg(F, df, a):
+    if a[0] == "str":
+        return a[1]
+    if a[0] == "col":
+        return F.col(a[1])
+    if a[0] == "item":
+        return df[a[1]]
+    if a[0] == "attr":
+        return df[a[1]] if hasattr(type(df), a[1]) else getattr(df, a[1])
+    return F.col(a[1]).alias(a[2])
+
+
 def apply_op(session, F, df, op):
     k = op[0]
     if k == "select":
-        args = []
-        for a in op[1]:
-            if a[0] == "str":
-                args.append(a[1])
-            elif a[0] == "col":
-                args.append(F.col(a[1]))
-            else:
-                args.append(F.col(a[1]).alias(a[2]))
-        return df.select(*args)
+        return df.select(*[_arg(F, df, a) for a in op[1]])
     if k == "withColumn":
         return df.withColumn(op[1], F.col(op[2]))
+    if k == "withColumnItem":
+        return df.withColumn(op[1], df[op[2]])
+    if k == "whereItem":
+        return df.where(df[op[1]] == F.lit(1))
+    if k == "orderByItems":
+        return df.orderBy(*[df[v] for v in op[1]])
+    if k == "joinOn":
+        other = make_df(session, op[1])
+        return df.join(other, df[op[2]] == other[op[3]], "inner")
     if k == "withColumnRenamed":
         return df.withColumnRenamed(op[1], op[2])
     if k == "toDF":
@@ -232,8 +267,7 @@ def apply_op(session, F, df, op):
     if k == "drop":
         return df.drop(*op[1])
     if k == "groupAgg":
-        keys = [a[1] if a[0] == "str" else F.col(a[1]) for a in op[1]]
-        return df.groupBy(*keys).agg(*[F.count("*").alias(a) for a in op[2]])
+        return df.groupBy(*[_arg(F, df, a) for a in op[1]]).agg(*[F.count("*").alias(a) for a in op[2]])
     if k == "agg":
         return df.agg(*[F.count("*").alias(a) for a in op[1]])
     if k == "join":
@@ -309,6 +343,8 @@ def selarg_coq(a) -> str:
         return f"(SStr {nm(a[1])})"
     if a[0] == "col":
         return f"(SCol {nm(a[1])})"
+    if a[0] in ("item", "attr"):
+        return f"(SItem {nm(a[1])})"
     return f"(SAlias {nm(a[1])} {nm(a[2])})"
 
 
@@ -316,8 +352,14 @@ def op_coq(op) -> str:
     k = op[0]
     if k == "select":
         return f"(OSelect {listlit([selarg_coq(a) for a in op[1]])})"
-    if k == "withColumn":
+    if k in ("withColumn", "withColumnItem"):
         return f"(OWithColumn {nm(op[1])})"
+    if k == "whereItem":
+        return f"(OWhere {nm(op[1])})"
+    if k == "orderByItems":
+        return f"(OOrderByItems {nms(op[1])})"
+    if k == "joinOn":
+        return f"(OJoinOn {nms(op[1])} {nm(op[2])} {nm(op[3])})"
     if k == "withColumnRenamed":
         return f"(OWithColumnRenamed {nm(op[1])} {nm(op[2])})"
     if k == "toDF":
@@ -431,6 +473,15 @@ CORPUS = [
                                                ("withColumn", "ab", "AB"), ("withColumnRenamed", "ORDER", "My Col"),
                                                ("where", "`my col`"), ("orderBy", ["AB"]), ("limit",), ("distinct",)]},
     {"names": ["AB", "Xy"], "ops": [("agg", ["Mx", "c d"])]},
+    # references through the DataFrame object
+    {"names": ["AB", "Xy"], "ops": [("select", [("item", "Xy"), ("attr", "AB")])]},
+    {"names": ["AB", "Xy", "c d"], "ops": [("select", [("item", "XY"), ("attr", "ab"), ("item", "`C d`")])]},
+    {"names": ["AB", "Xy"], "ops": [("whereItem", "xy"), ("select", [("item", "xY")]), ("withColumnItem", "Nn", "XY")]},
+    {"names": ["AB", "Xy"], "ops": [("orderByItems", ["ab", "XY"])]},
+    {"names": ["AB", "Xy"], "ops": [("select", [("alias", "ab", "Zz"), ("str", "xy")]), ("orderByItems", ["zz"])]},
+    {"names": ["AB", "Xy"], "ops": [("joinOn", ["Kk", "Other"], "ab", "KK"), ("select", [("item", "XY"), ("item", "OTHER")])]},
+    {"names": ["AB", "c d"], "ops": [("groupAgg", [("item", "C D")], ["n"])]},
+    {"names": ["AB", "Xy"], "ops": [("withColumn", "Nn", "ab"), ("groupAgg", [("item", "xy")], ["n"])]},
 ]
 
 
@@ -458,6 +509,12 @@ def signature(prog, k, st, o, kind):
             return "C10/orderBy-reserved-word-raises"
         if m == "orderBy" and err == "BinderException" and any(not attr(v).isascii() for v in op[1]):
             return "C10/orderBy-nonascii-alias-in-same-select-raises"
+        if m == "orderByItems" and err == "BinderException" and k >= 2 and prog["ops"][k - 2][0] in (
+                "select", "withColumn", "withColumnItem", "withColumnRenamed", "toDF", "agg", "groupAgg", "drop", "fillna",
+                "dropDuplicates", "distinct"):
+            return "C10/orderBy-df-item-after-select-raises"
+        if m == "groupAgg" and err == "BinderException" and any(a[0] in ("item", "attr") for a in op[1]):
+            return "C10/groupBy-df-item-after-select-raises"
         if m == "join" and err == "ValueError" and any(needs_ticks(v) for v in op[2]):
             return "C10/join-key-needing-quotes-raises"
         if _ticked_plain_before(prog, k):
@@ -473,7 +530,7 @@ def signature(prog, k, st, o, kind):
         return f"C10/{m}-respells-columns"
     if m == "groupAgg":
         return "C10/groupBy-agg-names-not-recorded"
-    if m == "join":
+    if m in ("join", "joinOn"):
         return "C10/join-right-side-names-lost"
     if m == "select":
         if any(a[0] == "str" and _is_ticked(a[1]) for a in op[1]):
@@ -493,9 +550,13 @@ def _ticked_plain_before(prog, k):
         refs = []
         if op[0] in ("select", "groupAgg"):
             refs = [a[1] for a in op[1]]
-        elif op[0] in ("where", "withColumnRenamed"):
+        elif op[0] in ("where", "whereItem", "withColumnRenamed"):
             refs = [op[1]]
-        elif op[0] == "orderBy":
+        elif op[0] in ("withColumn", "withColumnItem"):
+            refs = [op[2]]
+        elif op[0] == "joinOn":
+            refs = [op[2]]
+        elif op[0] in ("orderBy", "orderByItems"):
             refs = list(op[1])
         if any(_is_ticked(x) and not needs_ticks(attr(x)) for x in refs):
             return True
@@ -509,11 +570,15 @@ def well_formed(prog):
         refs = []
         if op[0] in ("select", "groupAgg"):
             refs = [attr(a[1]) for a in op[1]]
-        elif op[0] == "withColumn":
+        elif op[0] in ("withColumn", "withColumnItem"):
             refs = [attr(op[2])]
-        elif op[0] in ("withColumnRenamed", "where"):
+        elif op[0] in ("withColumnRenamed", "where", "whereItem"):
             refs = [attr(op[1])]
-        elif op[0] in ("drop", "dropDuplicates", "orderBy"):
+        elif op[0] == "joinOn":
+            refs = [attr(op[2])]
+            if key(attr(op[3])) not in {key(x) for x in op[1]} or {key(x) for x in op[1]} & {key(x) for x in ns}:
+                return False
+        elif op[0] in ("drop", "dropDuplicates", "orderBy", "orderByItems"):
             refs = [attr(v) for v in op[1]]
         elif op[0] == "fillna":
             refs = [attr(v) for v in (op[1] or [])]
@@ -534,7 +599,7 @@ def well_formed(prog):
 def _tup(op):
     def conv(x):
         if isinstance(x, list):
-            if x and isinstance(x[0], str) and x[0] in ("str", "col", "alias") and len(x) in (2, 3):
+            if x and isinstance(x[0], str) and x[0] in ("str", "col", "alias", "item", "attr") and len(x) in (2, 3):
                 return tuple(x)
             return [conv(y) for y in x]
         return x
@@ -557,6 +622,10 @@ def _arg_py(a):
         return repr(a[1])
     if a[0] == "col":
         return f"F.col({a[1]!r})"
+    if a[0] == "item":
+        return f"df[{a[1]!r}]"
+    if a[0] == "attr":
+        return f"df.{a[1]}"
     return f"F.col({a[1]!r}).alias({a[2]!r})"
 
 
@@ -566,6 +635,14 @@ def op_py(op) -> str:
         return "select(" + ", ".join(_arg_py(a) for a in op[1]) + ")"
     if k == "withColumn":
         return f"withColumn({op[1]!r}, F.col({op[2]!r}))"
+    if k == "withColumnItem":
+        return f"withColumn({op[1]!r}, df[{op[2]!r}])"
+    if k == "whereItem":
+        return f"where(df[{op[1]!r}] == 1)"
+    if k == "orderByItems":
+        return "orderBy(" + ", ".join(f"df[{x!r}]" for x in op[1]) + ")"
+    if k == "joinOn":
+        return f"join(other := createDataFrame([...], {list(op[1])!r}), df[{op[2]!r}] == other[{op[3]!r}], 'inner')"
     if k == "withColumnRenamed":
         return f"withColumnRenamed({op[1]!r}, {op[2]!r})"
     if k == "toDF":
@@ -624,7 +701,8 @@ def run(ctx: core.Ctx):
     n_rand = 150 if quick else 1500
     n_digit = 14 if quick else 200
     progs = [("corpus", p) for p in CORPUS]
-    progs += [("recorded", {"names": r["names"], "ops": r["ops"]}) for r in recs[len(CORPUS):len(CORPUS) + n_rec]]
+    stride = max(1, len(recs) // max(1, n_rec))
+    progs += [("recorded", {"names": r["names"], "ops": r["ops"]}) for r in recs[::stride][:n_rec]]
     g = Gen(rnd)
     progs += [("random", g.program(4 if rnd.random() < 0.8 else 7)) for _ in range(n_rand)]
     gd = Gen(rnd, digits=True)
